@@ -349,7 +349,7 @@ fn g_fold(k: usize, cap: usize, end: u8) {
     <Store as StoreTrait<St, Act>>::stop(&store);
     rt::run_pending(2);
     let g2 = crossbeam::channel::ghost(0);
-    chk!(4, rt::now() == clock && g2.len == g.len && g2.n_send == g.n_send && g2.n_try_send == g.n_try_send, "after stop() nothing changes and further stop() calls do nothing");
+    chk!(4, rt::now() == clock && g2.len == g.len && g2.n_taken == g.n_taken, "after stop() nothing changes and further stop() calls do nothing");
     chk!(4, store.get_state() == fin, "the state is final");
     let mt = &store.metrics;
     chk!(18, mt.error_occurred.load(Ordering::SeqCst) == 2 + rejected_after_close, "error_occurred = dispatches StoreImpl::dispatch rejected after close");
@@ -639,7 +639,7 @@ fn g_full_at_stop(k: usize, policy: u8, end: u8) {
     rt::run_loop(0);
     rt::run_pending(2);
     let g = crossbeam::channel::ghost(0);
-    chk!(6, g.n_send == 0, "under a drop policy neither dispatch nor close() ever waits");
+    chk!(6, g.n_send_waited == 0, "under a drop policy neither dispatch nor close() ever waits");
     match rusty_pool::ghost::loop_task(0) {
         Some(t) => chk!(4, rusty_pool::ghost::task(t).state == rusty_pool::ST_DONE, "the reducer loop ends (by the marker or by disconnection) and stop() returns"),
         None => panic!("VERIF-MODEL: no reducer loop task recognised"),
